@@ -64,6 +64,7 @@ func (v *VerifRQ) Run(p VerifRQParams) {
 	nw := p.Workers
 	v.NW = nw
 	rq := newReadyQueue(nw)
+	verifSortLocals(rq)
 	v.rq = rq
 	total := p.Producers * p.PerProducer
 	extra := 0
